@@ -21,6 +21,9 @@ T = {
  "C11": ("crashfs", "fault_enumeration", "fault enumeration: durable-shadow power-loss images (per-file content at last completed sync, plus subsets/torn prefixes of unsynced writes) at every event, recovered by the real Open",
          "The event log carries every sync; dropping or misplacing a Sync changes the shadow and shows as a lost committed transaction at the first commit after it.",
          "Disk model as stated in the property; a file's sync makes its directory entry durable. Sparse-mode images are a known finding (KF-SPARSE-POWER)."),
+ "C12": ("crashfs", "fault_enumeration", "fault injection through the verif FS hook (error / partial write at the j-th file operation of a Commit, for every j) + reference-model no-effect oracle in the process and after reopen; reflection-enumerated Tx API in read-only and finished transactions",
+         "Enumerates, per generated transaction, every position j of an injected I/O fault until the commit gets through, plus fn-error after every j, rollback, oversize at first/middle/last; the full observation must equal the model state before the fault.",
+         "Faults are injected before the real operation (which is skipped). Sparse-mode I/O-fault and in-doubt cases are known findings (KF-SPARSE-FAULT, KF-SPARSE-INDOUBT)."),
  "C05": ("refmodel", "exploration", "runtime monitor: Redis-list reference model; bounded-exhaustive state x operation x argument sweep on the exported list type plus one-operation-per-transaction histories with full observation",
          "Exhaustive for the bounded scope on ds/list.List (781 states x 3 construction paths x all arguments, all short sequences), random long sequences, and transaction-level histories with reopen; every call result and resulting list compared with the model.",
          "Model tolerates the documented error-instead-of-clamp choices; a panic is never tolerated."),
